@@ -484,6 +484,28 @@ func (p *cparser) parse() (*cnode, error) {
 			}
 			return nil, fmt.Errorf("bad object at %d", p.i)
 		}
+	case strings.HasPrefix(p.s[p.i:], "nil[]"), strings.HasPrefix(p.s[p.i:], "nil{}"):
+		// a nil slice / nil map: leaves whose spelling contains brackets
+		t := p.s[p.i : p.i+5]
+		p.i += 5
+		return &cnode{kind: 'l', text: t}, nil
+	case strings.HasPrefix(p.s[p.i:], "GO<"):
+		// a foreign Go value: GO<type>, where the type may contain brackets and nested angle brackets
+		depth, j := 0, p.i+2
+		for ; j < len(p.s); j++ {
+			if p.s[j] == '<' {
+				depth++
+			} else if p.s[j] == '>' {
+				depth--
+				if depth == 0 {
+					j++
+					break
+				}
+			}
+		}
+		n := &cnode{kind: 'l', text: p.s[p.i:j]}
+		p.i = j
+		return n, nil
 	default:
 		j := p.i
 		for j < len(p.s) && p.s[j] != ',' && p.s[j] != ']' && p.s[j] != '}' {
